@@ -137,6 +137,8 @@ class SymSched(fakeos.Sched):
 
     def ok(self, pid):
         """Symbolic/concrete truth of 'this child exited with status 0'."""
+        if pid not in self.outcome:
+            return False          # terminated by Conductor (killpg)
         kind, v = self.outcome[pid]
         if kind == "signaled":
             return False
